@@ -231,15 +231,15 @@ pub fn run(ctx: &mut Ctx) {
     let ps = pairs(tier, 1.8);
     let mut mc = vec![];
     for p in &ps {
-        for x in [0.25, 0.5, 0.75] {
+        for x in tier.pick(vec![0.25, 0.5, 0.75], vec![0.05, 0.15, 0.25, 0.35, 0.5, 0.65, 0.75, 0.85, 0.95]) {
             mc.push((p.clone(), x));
         }
     }
     ctx.run(&mc, |c| format!("{}|x={}", c.0.id, c.1), mix_case);
-    let env: Vec<Pair> = ps.iter().step_by(tier.pick(8, 4)).cloned().collect();
+    let env: Vec<Pair> = ps.iter().step_by(tier.pick(8, 2)).cloned().collect();
     ctx.run(&env, |c| format!("envelope|{}", c.id), envelope_case);
     ctx.extra("pure_records", json!(sel.len()));
     ctx.extra("pairs", json!(ps.len()));
-    ctx.rule = format!("pure: {} records of the shipped collections: critical point from the default start, the physical one, and from initial temperatures Tc x {{0.5,0.7,0.9,1.1,1.3,1.6}}: p > 0, V dp/dV / p and V^2 d2p/dV2 / p vanish (1e-6 / 1e-5), recomputed from the State; spinodals on a T_r lattice: dp/dV = 0, bracket rho_c, inside the binodal; Peng-Robinson 6x6x6 (Tc, pc, omega) lattice: critical point = parameters; mixtures: {} pairs x x in {{0.25,0.5,0.75}}: smallest eigenvalue of sqrt(n_i n_j)/RT dmu_i/dN_j (power iteration) and third directional derivative along its eigenvector (Richardson difference of the quadratic form) vanish, critical_point_binary(T) / (p) echo the specification, mixture spinodals and PhaseDiagram::spinodal", sel.len(), ps.len());
+    ctx.rule = format!("pure: {} records of the shipped collections: critical point from the default start, the physical one, and from initial temperatures Tc x {{0.5,0.7,0.9,1.1,1.3,1.6}}: p > 0, V dp/dV / p and V^2 d2p/dV2 / p vanish (1e-6 / 1e-5), recomputed from the State; spinodals on a T_r lattice: dp/dV = 0, bracket rho_c, inside the binodal; Peng-Robinson 6x6x6 (Tc, pc, omega) lattice: critical point = parameters; mixtures: {} pairs x x in {{0.25,0.5,0.75}} (thorough: 9 compositions 0.05..0.95): smallest eigenvalue of sqrt(n_i n_j)/RT dmu_i/dN_j (power iteration) and third directional derivative along its eigenvector (Richardson difference of the quadratic form) vanish, critical_point_binary(T) / (p) echo the specification, mixture spinodals and PhaseDiagram::spinodal", sel.len(), ps.len());
     ctx.assume("lattices as stated; eigenvector from the harness' own power iteration");
 }
